@@ -5,10 +5,13 @@ import QEModel.C16
 import QEProofs.Lemmas.C16Comb
 import QEProofs.Lemmas.C16CombGuard
 import QEProofs.Lemmas.C16KArray
+import QEProofs.Lemmas.C16Colex
 import QEProofs.Lemmas.C16Repeat
 import QEProofs.Lemmas.C16Cart
 import QEProofs.Lemmas.C16Nearest
 import QEProofs.Lemmas.C16NearestIdx
+import QEProofs.Lemmas.C16Prod
+import QEProofs.Lemmas.C16ProdSet
 import QEProofs.Lemmas.C16Simplex
 import QEProofs.Lemmas.C16SimplexIdx
 namespace QE.C16
@@ -257,6 +260,30 @@ theorem nextKArray_walk_enumerates (k n : Nat) (hk : 1 ≤ k) (a : List Nat) :
 example : (List.range 6).map (fun j => nextKArray^[j] (List.range 2))
     = [[0, 1], [0, 2], [1, 2], [0, 3], [1, 3], [2, 3]] := by decide
 
+/-- **The rank order is the colex order** ("lexicographic ordering of the descending sequences",
+    as both docstrings say): for strictly increasing arrays of equal length,
+    `rank a < rank b` iff the reversal of `a` is lexicographically smaller than that of `b`. -/
+theorem kArrayRank_colex_order (a b : List Nat) (hlen : a.length = b.length)
+    (hpa : a.Pairwise (· < ·)) (hpb : b.Pairwise (· < ·)) :
+    kArrayRank a < kArrayRank b ↔ a.reverse < b.reverse :=
+  kArrayRank_lt_iff_colex a b hlen hpa hpb
+
+example : kArrayRank [1, 2, 5] < kArrayRank [0, 3, 5] ∧
+    ([1, 2, 5] : List Nat).reverse < ([0, 3, 5] : List Nat).reverse := by decide
+
+/-- **The walk runs through the `k`-subsets in strictly increasing colex order**: for `k ≥ 1`
+    and `i < j`, the reversal of the `i`-th array of the walk from `arange(k)` is
+    lexicographically smaller than the reversal of the `j`-th. -/
+theorem nextKArray_walk_colex (k : Nat) (hk : 1 ≤ k) (i j : Nat) (hij : i < j) :
+    (nextKArray^[i] (List.range k)).reverse < (nextKArray^[j] (List.range k)).reverse := by
+  obtain ⟨li, pi, ri⟩ := nextKArray_iterate_rank k hk i
+  obtain ⟨lj, pj, rj⟩ := nextKArray_iterate_rank k hk j
+  rw [← kArrayRank_lt_iff_colex _ _ (by rw [li, lj]) pi pj, ri, rj]
+  exact hij
+
+example : (nextKArray^[2] (List.range 2)).reverse = [2, 1] ∧
+    (nextKArray^[3] (List.range 2)).reverse = [3, 0] := by decide
+
 /-- jitted twin, inner sum: if every `comb_jit` call is exact, the sum is the exact one -/
 theorem kArrayRankJitAux_eq : ∀ (l : List Nat) (i0 : Nat),
     (∀ j (hj : j < l.length),
@@ -281,8 +308,8 @@ theorem kArrayRankJitAux_eq : ∀ (l : List Nat) (i0 : Nat),
     the exact binomial (see `combJit_spec` for exactly when), the jitted twin returns
     `k_array_rank a`. (The docstring's "sufficient condition" `C(a[-1]+1, k) ≤ INTP_MAX` does
     NOT imply this hypothesis: `a = [0, 4000000000]`, known finding `k_array_rank_jit_doc_guard`.)
-    The `int64` wrap of the running sum is not modelled; all partial sums are non-negative and
-    non-decreasing, so there is none iff the final rank is `≤ INTP_MAX`. -/
+    `kArrayRankJit` sums over unbounded integers; the `int64` machine sum is `kArrayRankJitW`,
+    equal to it whenever the result fits (`kArrayRankJitW_eq`). -/
 theorem kArrayRankJit_eq (a : List Nat)
     (h : ∀ i (hi : i < a.length), 1 ≤ i →
       combJit (a[i] : Int) ((i : Int) + 1) = (Nat.choose a[i] (i + 1) : Int)) :
@@ -325,6 +352,112 @@ theorem kArrayRankJit_eq_of_guard (a : List Nat)
 example : ∀ i (hi : i < ([1, 2, 5] : List Nat).length), (([1, 2, 5] : List Nat)[i] : Int) < intpMax ∧
     (((i + 1) * Nat.choose ([1, 2, 5] : List Nat)[i] (i + 1) : Nat) : Int) ≤ intpMax := by decide
 
+/-! ### `k_array_rank_jit` as the machine computes it (`int64` wrap-around of the running sum) -/
+
+theorem combLoop_nonneg (Mv : Int) : ∀ (rem j : Nat) (val : Int), 0 ≤ val → 1 ≤ j →
+    (j : Int) + rem ≤ Mv → 0 ≤ combLoop Mv rem j val := by
+  intro rem
+  induction rem with
+  | zero => intro j val hv _ _; simpa [combLoop] using hv
+  | succ rem ih =>
+    intro j val hv hj hM
+    rw [combLoop]
+    split
+    · exact Int.le_refl 0
+    · apply ih (j + 1) _ _ (by omega) (by push_cast at hM ⊢; omega)
+      apply Int.ediv_nonneg _ (by omega)
+      exact Int.mul_nonneg hv (by push_cast at hM; omega)
+
+/-- `comb_jit` never returns a negative value -/
+theorem combJit_nonneg (N k : Int) : 0 ≤ combJit N k := by
+  unfold combJit
+  split
+  · exact Int.le_refl 0
+  · rename_i h
+    simp only
+    split
+    · decide
+    · split
+      · omega
+      · split
+        · exact Int.le_refl 0
+        · rename_i h0 h1 _
+          apply combLoop_nonneg (N + 1) _ 1 1 (by decide) (Nat.le_refl 1)
+          have : ((min k (N - k)).toNat : Int) = min k (N - k) := Int.toNat_of_nonneg (by omega)
+          omega
+
+theorem kArrayRankJitAux_nonneg : ∀ (l : List Int) (i : Int), 0 ≤ kArrayRankJitAux l i
+  | [], _ => Int.le_refl 0
+  | x :: l, i => by
+    rw [kArrayRankJitAux]
+    exact Int.add_nonneg (combJit_nonneg x (i + 1)) (kArrayRankJitAux_nonneg l (i + 1))
+
+theorem kArrayRankJitWLoop_eq : ∀ (rest : List Int) (i idx : Int), 1 ≤ i →
+    i + rest.length ≤ intpMax → (∀ x ∈ rest, -(2 ^ 63) ≤ x ∧ x ≤ intpMax) →
+    -(2 ^ 63) ≤ idx → idx + kArrayRankJitAux rest i ≤ intpMax →
+    kArrayRankJitWLoop rest i idx = idx + kArrayRankJitAux rest i
+  | [], _, idx, _, _, _, _, _ => by simp [kArrayRankJitWLoop, kArrayRankJitAux]
+  | x :: rest, i, idx, hi, hlen, hb, hlo, hfit => by
+    have hx := hb x List.mem_cons_self
+    have hi1 : i + 1 ≤ intpMax := by
+      simp only [List.length_cons] at hlen; push_cast at hlen; omega
+    have hw : wrap64 (i + 1) = i + 1 := wrap64_id _ (by omega) hi1
+    have hc : combJitW x (i + 1) = combJit x (i + 1) :=
+      combJitW_eq_combJit x (i + 1) hx.1 hx.2 (by omega) hi1
+    have hc0 := combJit_nonneg x (i + 1)
+    have ha0 := kArrayRankJitAux_nonneg rest (i + 1)
+    rw [kArrayRankJitAux] at hfit
+    have hw2 : wrap64 (idx + combJit x (i + 1)) = idx + combJit x (i + 1) :=
+      wrap64_id _ (by omega) (by omega)
+    rw [kArrayRankJitWLoop, hw, hc, hw2, kArrayRankJitAux,
+      kArrayRankJitWLoop_eq rest (i + 1) _ (by omega)
+        (by simp only [List.length_cons] at hlen; push_cast at hlen; omega)
+        (fun y hy => hb y (List.mem_cons_of_mem _ hy)) (by omega) (by omega)]
+    omega
+
+/-- **No silent wrap-around when the result fits.** For `int64` inputs, if the (unbounded
+    integer) value `kArrayRankJit a` of the sum `a[0] + Σ comb_jit(a[i], i+1)` is `≤ INTP_MAX`,
+    the machine computation with `int64` wrap-around (`kArrayRankJitW`, the definition the
+    driver's `krankjitw` op executes against the real `k_array_rank_jit`) returns exactly that
+    value: all partial sums are non-decreasing, so none of them wraps. -/
+theorem kArrayRankJitW_eq (a : List Int) (hb : ∀ x ∈ a, -(2 ^ 63) ≤ x ∧ x ≤ intpMax)
+    (hlen : (a.length : Int) ≤ intpMax) (hfit : kArrayRankJit a ≤ intpMax) :
+    kArrayRankJitW a = kArrayRankJit a := by
+  cases a with
+  | nil => rfl
+  | cons a0 rest =>
+    simp only [kArrayRankJit] at hfit
+    simp only [List.length_cons] at hlen
+    show kArrayRankJitWLoop rest 1 a0 = a0 + kArrayRankJitAux rest 1
+    exact kArrayRankJitWLoop_eq rest 1 a0 (Int.le_refl 1) (by push_cast at hlen; omega)
+      (fun y hy => hb y (List.mem_cons_of_mem _ hy)) (hb a0 List.mem_cons_self).1 hfit
+
+/-- **`k_array_rank_jit`, machine level, is the position in the walk** under the guard of
+    `kArrayRankJit_eq_of_guard` whenever the rank itself fits in `intp`. -/
+theorem kArrayRankJitW_eq_rank (a : List Nat)
+    (h : ∀ i (hi : i < a.length), (a[i] : Int) < intpMax ∧
+      (((i + 1) * Nat.choose a[i] (i + 1) : Nat) : Int) ≤ intpMax)
+    (hlen : (a.length : Int) ≤ intpMax) (hfit : (kArrayRank a : Int) ≤ intpMax) :
+    kArrayRankJitW (a.map Int.ofNat) = (kArrayRank a : Int) := by
+  have he := kArrayRankJit_eq_of_guard a h
+  rw [← he]
+  apply kArrayRankJitW_eq
+  · intro x hx
+    obtain ⟨y, hy, rfl⟩ := List.mem_map.mp hx
+    obtain ⟨i, hi, rfl⟩ := List.getElem_of_mem hy
+    have := (h i hi).1
+    have h0 : (0 : Int) ≤ Int.ofNat a[i] := Int.natCast_nonneg _
+    have e : Int.ofNat a[i] = (a[i] : Int) := rfl
+    constructor
+    · omega
+    · rw [e]; omega
+  · simpa using hlen
+  · rw [he]; exact hfit
+
+example : kArrayRankJitW [1, 2, 5] = 12 := by decide
+example : kArrayRankJitW [intpMax, 5] = -9223372036854775799 ∧ kArrayRankJit [intpMax, 5] > intpMax := by
+  decide
+
 /-! ## cartesian / _repeat_1d / _cartesian_index  (proofs: `Lemmas/C16Repeat`, `Lemmas/C16Cart`) -/
 
 /-- **`_repeat_1d`.** With `N = len x`, `L = total // (K·N)`: the output has length `total`
@@ -363,6 +496,52 @@ example : cartesian [[1, 2], [10, 20, 30]] false
     = ([[1, 10], [1, 20], [1, 30], [2, 10], [2, 20], [2, 30]] : List (List Int)) := by decide
 example : cartesian [[1, 2], [10, 20, 30]] true
     = ([[1, 10], [2, 10], [1, 20], [2, 20], [1, 30], [2, 30]] : List (List Int)) := by decide
+
+/-- **`cartesian` IS the product grid, as a list.** Order C: the output equals the standard
+    recursive cartesian product `cartProd nodes` (first factor slowest — exactly what
+    `itertools.product(*nodes)` enumerates: every element of the product once, in that order).
+    Order F: it equals the product of the reversed grid list with every row reversed (first
+    factor fastest). No hypotheses: empty `nodes` gives the single empty row, an empty grid
+    gives no rows. -/
+theorem cartesian_eq_product {α : Type} [Zero α] (nodes : List (List α)) :
+    cartesian nodes false = cartProd nodes ∧
+    cartesian nodes true = (cartProd nodes.reverse).map List.reverse :=
+  ⟨cartesian_C_eq_cartProd nodes, cartesian_F_eq_cartProd nodes⟩
+
+example : cartProd ([[1, 2], [10, 20, 30]] : List (List Int))
+    = [[1, 10], [1, 20], [1, 30], [2, 10], [2, 20], [2, 30]] := by decide
+example : (cartProd ([[1, 2], [10, 20, 30]] : List (List Int)).reverse).map List.reverse
+    = [[1, 10], [2, 10], [1, 20], [2, 20], [1, 30], [2, 30]] := by decide
+example : cartesian ([] : List (List Int)) false = [[]] ∧
+    cartesian ([[1, 2], []] : List (List Int)) true = [] := by decide
+
+/-- **`cartesian` enumerates the FULL product, each point once** (either order): a row occurs
+    in `cartesian nodes order` iff it takes one node from each grid, in the order of the grids;
+    and if no grid repeats a node (e.g. strictly sorted grids) no row is repeated. -/
+theorem cartesian_complete_nodup {α : Type} [Zero α] (nodes : List (List α)) (o : Bool) :
+    (∀ row, row ∈ cartesian nodes o ↔ List.Forall₂ (fun a g => a ∈ g) row nodes) ∧
+    ((∀ g ∈ nodes, g.Nodup) → (cartesian nodes o).Nodup) := by
+  cases o with
+  | false =>
+    rw [cartesian_C_eq_cartProd]
+    exact ⟨fun row => mem_cartProd nodes row, nodup_cartProd nodes⟩
+  | true =>
+    rw [cartesian_F_eq_cartProd]
+    constructor
+    · intro row
+      rw [← List.forall₂_reverse_iff, ← mem_cartProd]
+      constructor
+      · intro h
+        obtain ⟨t, ht, rfl⟩ := List.mem_map.mp h
+        rw [List.reverse_reverse]; exact ht
+      · intro h
+        exact List.mem_map.mpr ⟨row.reverse, h, List.reverse_reverse row⟩
+    · intro h
+      exact (nodup_cartProd nodes.reverse (fun g hg => h g (List.mem_reverse.mp hg))).map
+        List.reverse_injective
+
+example : List.Forall₂ (fun a g => a ∈ g) ([2, 30] : List Int) [[1, 2], [10, 20, 30]] ∧
+    ∀ g ∈ ([[1, 2], [10, 20, 30]] : List (List Int)), g.Nodup := by decide
 
 /-- **`_cartesian_index` is the inverse of the digit maps** (so row numbers and valid index
     tuples are in bijection, in the same enumeration as `cartesian`): for `r < ∏ shapes`,
@@ -433,6 +612,25 @@ theorem nearest1_is_argmin (g : List K) (x : K) (hne : g ≠ []) (hs : g.Pairwis
         ∀ i, i < nearest1 g x → |x - g.getD (nearest1 g x) 0| < |x - g.getD i 0|) :=
   ⟨(nearest1_argmin g x hne hs).1, (nearest1_argmin g x hne hs).2,
    fun hss => nearest1_lower_strict g x hss⟩
+
+/-- **The per-dimension result is fully determined**: on a non-empty strictly increasing grid,
+    `nearest1 g x` is THE least index at minimum distance — an index `j` equals it iff `j` is
+    valid, no grid point is closer than `g[j]`, and every lower index is strictly farther. -/
+theorem nearest1_eq_iff (g : List K) (x : K) (hne : g ≠ []) (hs : g.Pairwise (· < ·)) (j : Nat) :
+    j = nearest1 g x ↔
+      j < g.length ∧ (∀ i, i < g.length → |x - g.getD j 0| ≤ |x - g.getD i 0|) ∧
+        ∀ i, i < j → |x - g.getD j 0| < |x - g.getD i 0| := by
+  obtain ⟨h1, h2, h3⟩ := nearest1_is_argmin g x hne (hs.imp le_of_lt)
+  constructor
+  · rintro rfl; exact ⟨h1, h2, h3 hs⟩
+  · rintro ⟨k1, k2, k3⟩
+    rcases Nat.lt_trichotomy j (nearest1 g x) with hlt | heq | hgt
+    · exact absurd (h3 hs j hlt) (not_lt.mpr (k2 _ h1))
+    · exact heq
+    · exact absurd (k3 _ hgt) (not_lt.mpr (h2 j k1))
+
+example : ([0, 1, 3] : List Rat) ≠ [] ∧ ([0, 1, 3] : List Rat).Pairwise (· < ·) := by
+  decide +kernel
 
 example : nearest1 ([0, 1, 3] : List Rat) 2 = 1 ∧ nearest1 ([0, 1, 3] : List Rat) (5/2) = 2 ∧
     nearest1 ([0, 1, 3] : List Rat) (-1) = 0 ∧ nearest1 ([0, 1, 3] : List Rat) 7 = 2 := by
